@@ -51,7 +51,7 @@ impl Synthetic {
         let mph = speed_mps / ru::speed_mps(&SpeedUnit::MilesPerHour);
         let per_mile = self.scale * (0.2 + 0.002 * mph + 2.0 * grade_dec);
         // per_mile is energy per mile; express per the rate unit's distance
-        per_mile * ru::distance_m(&self.rate_unit.associated_distance_unit()) / ru::distance_m(&DistanceUnit::Miles)
+        per_mile * ru::distance_m(&ru::rate_distance_unit(&self.rate_unit)) / ru::distance_m(&DistanceUnit::Miles)
     }
 }
 impl PredictionModel for Synthetic {
@@ -287,14 +287,14 @@ pub fn check_history(cfg: &Cfg, b: &Built, hist: &[usize], st: &mut Stats) {
             }
         };
         let (rate, unit) = if cfg.vehicle == "phev" && !electric_mode { ((b.rate_b.as_ref().unwrap())(mps, grade), b.rate_unit_b.unwrap()) } else { ((b.rate_a)(mps, grade), b.rate_unit_a) };
-        let dist_in_rate_unit = len_m / ru::distance_m(&unit.associated_distance_unit());
-        let energy = rate * cfg.adjustment * dist_in_rate_unit; // in unit.associated_energy_unit()
+        let dist_in_rate_unit = len_m / ru::distance_m(&ru::rate_distance_unit(&unit));
+        let energy = rate * cfg.adjustment * dist_in_rate_unit; // in ru::rate_energy_unit(&unit)
         let comp = format!("{}.step", comp_base);
         // energy features
         if cfg.vehicle == "ice" {
             ref_liq += energy;
             mag_liq += energy.abs();
-            let got = b.sm.get_energy(&state, &name_l, &unit.associated_energy_unit()).map(|e| e.as_f64()).unwrap_or(f64::NAN);
+            let got = b.sm.get_energy(&state, &name_l, &ru::rate_energy_unit(&unit)).map(|e| e.as_f64()).unwrap_or(f64::NAN);
             if (got - ref_liq).abs() <= tol * mag_liq + 1e-12 {
                 st.pass("energy_is_rate_times_distance_times_adjustment");
             } else {
@@ -302,7 +302,7 @@ pub fn check_history(cfg: &Cfg, b: &Built, hist: &[usize], st: &mut Stats) {
                 return;
             }
         } else {
-            let d_elec_kwh = if electric_mode { energy * energy_unit_factor(&unit.associated_energy_unit(), &EnergyUnit::KilowattHours) } else { 0.0 };
+            let d_elec_kwh = if electric_mode { energy * energy_unit_factor(&ru::rate_energy_unit(&unit), &EnergyUnit::KilowattHours) } else { 0.0 };
             ref_elec += d_elec_kwh;
             mag_elec += d_elec_kwh.abs();
             if cfg.vehicle == "phev" && !electric_mode {
@@ -317,7 +317,7 @@ pub fn check_history(cfg: &Cfg, b: &Built, hist: &[usize], st: &mut Stats) {
                 return;
             }
             if cfg.vehicle == "phev" {
-                let lu = b.rate_unit_b.unwrap().associated_energy_unit();
+                let lu = ru::rate_energy_unit(&b.rate_unit_b.unwrap());
                 let got_l = b.sm.get_energy(&state, &name_l, &lu).map(|e| e.as_f64()).unwrap_or(f64::NAN);
                 if (got_l - ref_liq).abs() <= tol * mag_liq + 1e-12 {
                     st.pass("hybrid_draws_one_energy_source_per_edge");
@@ -369,9 +369,9 @@ fn check_estimate(cfg: &Cfg, b: &Built, st: &mut Stats) {
     match guarded(|| b.model.estimate_traversal((&v0, &v1), &mut state, &b.sm)) {
         Ok(Ok(())) => {
             let d_m = routee_compass_core::util::geo::haversine::haversine_distance_meters(0.0, 0.0, 0.02, 0.01).map(|d| d.as_f64()).unwrap_or(f64::NAN);
-            let want = b.ideal_a * d_m / ru::distance_m(&b.rate_unit_a.associated_distance_unit());
+            let want = b.ideal_a * d_m / ru::distance_m(&ru::rate_distance_unit(&b.rate_unit_a));
             let name = if cfg.vehicle == "ice" { "energy_liquid" } else { "energy_electric" }.to_string();
-            let got = b.sm.get_energy(&state, &name, &b.rate_unit_a.associated_energy_unit()).map(|e| e.as_f64()).unwrap_or(f64::NAN);
+            let got = b.sm.get_energy(&state, &name, &ru::rate_energy_unit(&b.rate_unit_a)).map(|e| e.as_f64()).unwrap_or(f64::NAN);
             if close(got, want, 3e-3) {
                 st.pass("best_case_energy_is_ideal_rate_times_distance");
             } else {
